@@ -183,7 +183,7 @@ fn some_elem(r: &mut Rng, live: &Live) -> i64 {
 
 pub fn gen_qid(r: &mut Rng, live: &Live, nodes_only: bool) -> Qid {
     if !live.aliases.is_empty() && r.chance(1, 4) { Qid::Alias(r.pick(&live.aliases).clone()) }
-    else if r.chance(1, 40) { Qid::Alias("missing".into()) }
+    else if r.chance(1, 40) { Qid::Alias(if r.chance(1, 3) { "" } else { "missing" }.into()) }
     else if r.chance(1, 60) { Qid::Id(0) }
     else if nodes_only { Qid::Id(some_node(r, live)) }
     else { Qid::Id(some_elem(r, live)) }
@@ -277,12 +277,15 @@ pub fn gen_mut(r: &mut Rng, live: &Live, p: Profile) -> Q {
                     let ids = gen_ids(r, live, true, 3, true);
                     let n = if let Qids::Ids(l) = &ids { l.len() } else { 1 };
                     // insert-or-update may also (re)assign aliases of the existing nodes
-                    let aliases: Vec<String> = if r.chance(1, 2) { (0..r.below(n as u64 + 1)).map(|_| gen_alias_p(r, live, 4, p)).collect() } else { vec![] };
+                    let mut aliases: Vec<String> = if r.chance(1, 2) { (0..r.below(n as u64 + 1)).map(|_| gen_alias_p(r, live, 4, p)).collect() } else { vec![] };
+                    // an empty alias must be rejected without effect (C10), at any position
+                    if !aliases.is_empty() && r.chance(1, 20) { let k = r.below(aliases.len() as u64) as usize; aliases[k] = String::new(); }
                     Q::InsertNodes(0, gen_qvalues(r, n), aliases, ids)
                 }
                 1 | 2 => { // with aliases
                     let n = r.range(1, 3) as usize;
-                    let aliases: Vec<String> = (0..n).map(|_| gen_alias_p(r, live, 7, p)).collect();
+                    let mut aliases: Vec<String> = (0..n).map(|_| gen_alias_p(r, live, 7, p)).collect();
+                    if r.chance(1, 20) { let k = r.below(aliases.len() as u64) as usize; aliases[k] = String::new(); }
                     let vals = if r.chance(1, 2) { Qvalues::Single(gen_kvs(r, 3)) } else { Qvalues::Multi((0..n + r.below(2) as usize).map(|_| gen_kvs(r, 3)).collect()) };
                     Q::InsertNodes(0, vals, aliases, Qids::Ids(vec![]))
                 }
